@@ -71,6 +71,9 @@ type dynCtx struct {
 	r     *rand.Rand
 	stats dynStats
 	seq   int
+	// attrsIter: probe outside the domain (known finding dyn-attrs-iterator): blocks that
+	// are read with JustAttributes get their values through the iterator, too
+	attrsIter bool
 }
 
 // dynamize rewrites blocks of the given body (and, recursively, of nested bodies) into
@@ -93,7 +96,7 @@ func (d *dynCtx) dynamize(items []*Item, s *Schema, env []string) []*Item {
 			out = append(out, it)
 			continue
 		}
-		if d.r.Intn(3) == 0 {
+		if d.r.Intn(3) == 0 && !(d.attrsIter && bs.Mode == "attrs") {
 			// leave static, but look inside
 			c := *it
 			if bs.Body != nil {
@@ -317,6 +320,15 @@ func (d *dynCtx) template(groups [][]*Item, bs *BlockS, env []string, parentIter
 				same = false
 			}
 		}
+		if attrsMode && d.attrsIter {
+			key := "a_" + n
+			for i, b := range all {
+				objs[b].set(key, vals[i].clone())
+			}
+			content = append(content, &Item{K: "attr", Name: n, Val: vRef(iter, "value", key)})
+			d.stats["dyn:attrs-block-from-iterator"]++
+			continue
+		}
 		if attrsMode && !same {
 			// a body read with JustAttributes does not see iterator variables in this
 			// implementation (dynblock passes JustAttributes through): only constant
@@ -411,6 +423,14 @@ func (d *dynCtx) template(groups [][]*Item, bs *BlockS, env []string, parentIter
 				d.stats["dyn:static-nested"]++
 				continue
 			}
+			if !identical && d.r.Intn(2) == 0 {
+				// static child blocks whose attribute values come from our iterator
+				if st := d.staticFromIterator(kids, all, cs, iter, objs); st != nil {
+					content = append(content, st...)
+					d.stats["dyn:static-nested-from-iterator"]++
+					continue
+				}
+			}
 			sub, colls, ex := d.template(kids, cs, innerEnv, iter)
 			if sub == nil {
 				if !identical {
@@ -475,6 +495,93 @@ func (d *dynCtx) template(groups [][]*Item, bs *BlockS, env []string, parentIter
 	body = append(body, &Item{K: "block", Name: "content", Labels: []string{}, Body: content})
 	_ = groupOf
 	return &Item{K: "block", Name: "dynamic", Labels: []string{bs.Type}, Body: body}, colls, extras
+}
+
+// staticFromIterator: every parent has the same number of children of type cs, and the
+// children at one position differ at most in attribute values: they are written as static
+// blocks inside the content, the differing values taken from the parent's iterator.
+func (d *dynCtx) staticFromIterator(kids [][]*Item, parents []*Item, cs *BlockS, iter string, objs map[*Item]*Val) []*Item {
+	n := len(kids[0])
+	if n == 0 || cs.Mode == "attrs" {
+		return nil
+	}
+	for _, k := range kids {
+		if len(k) != n {
+			return nil
+		}
+	}
+	type pending struct {
+		parent *Item
+		key    string
+		val    *Val
+	}
+	var adds []pending
+	var out []*Item
+	for j := 0; j < n; j++ {
+		first := kids[0][j]
+		names := attrNames(first.Body)
+		if names == nil {
+			return nil
+		}
+		blk := &Item{K: "block", Name: cs.Type, Labels: append([]string{}, first.Labels...), Body: []*Item{}}
+		for pi := range kids {
+			c := kids[pi][j]
+			if !sameShape(first, c) {
+				return nil
+			}
+			for l := range c.Labels {
+				if c.Labels[l] != first.Labels[l] {
+					return nil // a static block's labels are literal
+				}
+			}
+			// nested blocks of the child must be the same everywhere
+			var a, b []*Item
+			for _, x := range first.Body {
+				if x.K == "block" {
+					a = append(a, x)
+				}
+			}
+			for _, x := range c.Body {
+				if x.K == "block" {
+					b = append(b, x)
+				}
+			}
+			if !itemsEqual(a, b) {
+				return nil
+			}
+		}
+		for _, an := range names {
+			same := true
+			for pi := range kids {
+				if !valEqual(attrsOf(kids[pi][j].Body, an)[0].Val, attrsOf(first.Body, an)[0].Val) {
+					same = false
+				}
+			}
+			if same {
+				blk.Body = append(blk.Body, &Item{K: "attr", Name: an, Val: attrsOf(first.Body, an)[0].Val.clone()})
+				continue
+			}
+			key := fmt.Sprintf("s_%s_%d_%s", cs.Type, j, an)
+			for pi := range kids {
+				adds = append(adds, pending{parents[pi], key, attrsOf(kids[pi][j].Body, an)[0].Val.clone()})
+			}
+			blk.Body = append(blk.Body, &Item{K: "attr", Name: an, Val: vRef(iter, "value", key)})
+		}
+		for _, x := range first.Body {
+			if x.K == "block" {
+				blk.Body = append(blk.Body, x.clone())
+			}
+		}
+		blk.Body = reorderItems(d.r, blk.Body)
+		out = append(out, blk)
+	}
+	if len(adds) == 0 {
+		return nil
+	}
+	for _, a := range adds {
+		objs[a.parent].set(a.key, a.val)
+	}
+	return out
 }
 
 // indexSeries: in every group the labels at level lv are prefix+"0", prefix+"1", ... with
